@@ -38,16 +38,23 @@ DOCS_QUICK = ['', 'ab', 'a\nb', 'a\r\nb', 'aé\nb\U0001F600', 'a€']
 ALPHA = ['a', '\n', '\r', 'é', '€', '\U0001F600']
 
 
-def docs_for(tier):
+def docs_for(tier, seed=0):
     if tier == 'quick':
         return DOCS_QUICK
     out = list(DOCS_QUICK)
     import itertools
-    for n in (1, 2, 3):
+    import random
+    for n in (1, 2):
         for t in itertools.product(ALPHA, repeat=n):
             s = ''.join(t)
             if s not in out:
                 out.append(s)
+    rng = random.Random(seed * 41 + 9)
+    triples = [''.join(t) for t in itertools.product(ALPHA, repeat=3)]
+    rng.shuffle(triples)
+    for s in triples[:24]:
+        if s not in out:
+            out.append(s)
     return out
 
 
@@ -79,7 +86,7 @@ def line_table(doc):
     return starts, table
 
 
-def build(tier):
+def build(tier, seed=0):
     unlocated, sliced, harnesses = [], [], []
     lib = SHIMS
     try:
@@ -95,7 +102,7 @@ def build(tier):
         return Crate('C23', 'c23_lsp', lib, []), [f'TextDocument: {e}'], sliced
 
     stubs = [('alloc::string::String::replace_range', 'stub_replace_range')]
-    for di, doc in enumerate(docs_for(tier)):
+    for di, doc in enumerate(docs_for(tier, seed)):
         starts, table = line_table(doc)
         nlines = len(starts)
         blen = len(doc.encode('utf-8'))
